@@ -19,7 +19,7 @@ round 5b over the 80 changes kept then; the changes of rounds 6-9 were each eval
 check was strengthened, when they were kept - the verdict is in their `meta.json`; `RESULTS_final_sample.txt` is a
 last re-evaluation, against the final checks, of 30 changes of rounds 1-5 that had once been missed: all caught).
 
-%d changes in nine rounds: round 1 has one per property (20); round 2 a second, different change for every property
+%d changes in ten rounds: round 1 has one per property (20); round 2 a second, different change for every property
 (20; the authors were told the earlier ideas so as to avoid them); rounds 3 and 4 (8 + 12, all twenty properties)
 asked for violations that are HISTORY- or CONFIGURATION-DEPENDENT (only a sequence of calls on the same objects
 misbehaves); round 5 (12 + 8, all twenty properties) asked for changes about element NAMES / TYPES, BOUNDARY shapes,
@@ -28,7 +28,8 @@ parameters, alternative entry points), plausible PERFORMANCE OPTIMISATIONS that 
 cooperating sites; round 7 (20, `-r7-`) asked the authors to break ONLY the least-tested secondary clause of
 the statement (a refusal, an "exactly when", a "never", the second of two variants, objects left untouched); round 8 (20, `-r8-`) asked for changes in LOW-LEVEL SHARED MODULES (element, ranking, dataset, consensus, the
 shared cost kernel) that break the property through that dependency; round 9 (19, `-r9-`; the author for C15 failed) asked for RARITY: a natural structural trigger
-met by fewer than one uniformly random small input in 10 000. %d were caught by the check of their own property as it stood when they were first evaluated; %d
+met by fewer than one uniformly random small input in 10 000; round 10 (6, `-r10-`: C05, C07, C11, C13, C15, C16) asked for a trigger
+that COMBINES TWO CONDITIONS (a scheme shape together with a dataset shape). %d were caught by the check of their own property as it stood when they were first evaluated; %d
 were missed by it at first (%s) - several of those were caught by another property's
 check - and led to the generator / sub-check additions recorded in the last column and in DESIGN.md section 11. All
 are caught by the quick tier now, with four remarks: `C09-r9-departures-deduplicated-by-text` (more than 1000 elements
